@@ -16,3 +16,103 @@ pub struct ConstSummary {
     /// Number of elements in the storage that backs the constant.
     pub storage_len: usize,
 }
+
+use std::sync::atomic::{AtomicU64, Ordering};
+
+/// Counters for the choices a [`Strategy`] made ("reach probes").
+#[derive(Debug, Default)]
+pub struct StrategyStats {
+    pub in_place_runs: AtomicU64,
+    pub in_place_refused: AtomicU64,
+    pub commutative_repicked: AtomicU64,
+    pub released_to_pool: AtomicU64,
+    pub kept_out_of_pool: AtomicU64,
+    pub by_value_captures: AtomicU64,
+    pub by_value_refused: AtomicU64,
+    pub plans_shuffled: AtomicU64,
+    pub pool_hits: AtomicU64,
+    pub pool_forced_misses: AtomicU64,
+    pub pool_refits: AtomicU64,
+    pub pool_poisoned: AtomicU64,
+}
+
+/// Seeded executor strategy.
+///
+/// The graph executor is free to make several choices differently without
+/// changing results: whether an eligible operator runs in place, which
+/// operand of a commutative operator is overwritten, whether a dead value's
+/// buffer is recycled, whether a subgraph captures a dead value by value, the
+/// order of independent operators, and which pooled buffer satisfies an
+/// allocation. A `Strategy` makes those choices from a seed. Probabilities
+/// are in 1/256ths.
+#[derive(Debug, Default)]
+pub struct Strategy {
+    pub seed: u64,
+    /// Probability that an eligible in-place execution is refused.
+    pub refuse_in_place: u16,
+    /// Pick the in-place operand of commutative operators by hash instead of
+    /// by size.
+    pub any_commutative_operand: bool,
+    /// Probability, per plan step, that dead values are not released to the pool.
+    pub keep_out_of_pool: u16,
+    /// Probability that a dead value is not captured by value by a subgraph.
+    pub refuse_by_value_capture: u16,
+    /// Execute a seeded topological order of the plan's operators.
+    pub shuffle_plan: bool,
+    /// Override for the pool's minimum buffer size.
+    pub pool_min_size: Option<usize>,
+    /// Pick any fitting pooled buffer instead of the best fit.
+    pub pool_random_fit: bool,
+    /// Probability that an allocation ignores the pool.
+    pub pool_miss: u16,
+    /// Byte pattern written over buffers when they enter the pool.
+    pub poison: Option<u8>,
+    ordinal: AtomicU64,
+    pub stats: StrategyStats,
+}
+
+fn mix64(mut x: u64) -> u64 {
+    x = x.wrapping_add(0x9E37_79B9_7F4A_7C15);
+    x = (x ^ (x >> 30)).wrapping_mul(0xBF58_476D_1CE4_E5B9);
+    x = (x ^ (x >> 27)).wrapping_mul(0x94D0_49BB_1331_11EB);
+    x ^ (x >> 31)
+}
+
+impl Strategy {
+    /// The reference strategy: nothing in place, nothing recycled, nothing
+    /// captured by value, plan order unchanged.
+    pub fn reference() -> Strategy {
+        Strategy {
+            refuse_in_place: 256,
+            keep_out_of_pool: 256,
+            refuse_by_value_capture: 256,
+            pool_miss: 256,
+            ..Default::default()
+        }
+    }
+
+    /// Stateless hash of the seed and a site description.
+    pub fn hash(&self, site: u64, a: u64, b: u64) -> u64 {
+        mix64(mix64(mix64(self.seed ^ site).wrapping_add(a)).wrapping_add(b))
+    }
+
+    /// Sequential decision with probability `p`/256. Only called from the
+    /// thread that executes the plan.
+    pub fn decide(&self, site: u64, p: u16) -> bool {
+        if p == 0 {
+            return false;
+        }
+        let n = self.ordinal.fetch_add(1, Ordering::Relaxed);
+        (self.hash(site, n, 0) & 0xff) < p as u64
+    }
+
+    /// Sequential choice in `0..n`.
+    pub fn pick(&self, site: u64, n: usize) -> usize {
+        let k = self.ordinal.fetch_add(1, Ordering::Relaxed);
+        (self.hash(site, k, 1) % n.max(1) as u64) as usize
+    }
+
+    pub fn count(counter: &AtomicU64) {
+        counter.fetch_add(1, Ordering::Relaxed);
+    }
+}
